@@ -347,6 +347,55 @@ def rule_r2_r8(rep, program: Program):
     return r
 
 
+def rule_r12(rep, program: Program):
+    """A sub-tree for which _build_tree reports termination (divergence, error, or a U-turn inside the
+    completed sub-tree) must be discarded: states of the old tree would otherwise move into a
+    sub-tree from which the doubling, started inside it, could never reach them (no reverse move)."""
+    r = rep.rule("R12", "every use of the sub-tree / proposal returned by _build_tree is dominated by a test of the termination flag returned with it (terminated sub-trees are discarded, not merged or sampled from)", floor=3)
+    k = program.cls("DynamicIntegrationTransition")
+    from ..model import _blocks
+
+    for fname in ("sample", "_build_tree"):
+        f = k.methods[fname]
+        for block in _blocks(f.node):
+            for i, st in enumerate(block):
+                if not (isinstance(st, ast.Assign) and len(st.targets) == 1 and isinstance(st.targets[0], ast.Tuple) and isinstance(st.value, ast.Call) and norm(st.value.func) == "self._build_tree"):
+                    continue
+                tg = st.targets[0].elts
+                if len(tg) != 3 or not all(isinstance(x, ast.Name) for x in tg):
+                    raise AnalysisError(f"{f.qualname}: result of _build_tree not unpacked into three names")
+                flag, vals = tg[0].id, {tg[1].id, tg[2].id}
+                rest = block[i + 1 :]
+                guard_at = None
+                for j, x in enumerate(rest):
+                    # the flag must still hold the value returned by this call
+                    if any(isinstance(n, ast.Name) and n.id == flag and isinstance(n.ctx, ast.Store) for n in ast.walk(x)):
+                        break
+                    if isinstance(x, ast.If) and not x.orelse and x.body and isinstance(x.body[-1], (ast.Break, ast.Return, ast.Raise, ast.Continue)) and norm(x.test) in (flag, f"{flag} is True", f"{flag} == True", f"bool({flag})"):
+                        guard_at = j
+                        break
+                    if isinstance(x, ast.If) and x.orelse and norm(x.test) == flag and x.body and isinstance(x.body[-1], (ast.Break, ast.Return, ast.Raise, ast.Continue)):
+                        guard_at = j
+                        break
+                    if isinstance(x, ast.If) and norm(x.test) == f"not {flag}" and x.orelse and isinstance(x.orelse[-1], (ast.Break, ast.Return, ast.Raise, ast.Continue)):
+                        guard_at = j
+                        break
+                limit = len(rest) if guard_at is None else guard_at
+                early = []
+                for x in rest[:limit]:
+                    # a re-binding of the value names ends their life
+                    for n in ast.walk(x):
+                        if isinstance(n, ast.Name) and n.id in vals and isinstance(n.ctx, ast.Load):
+                            early.append((x, n.id))
+                r.inst({"function": f.qualname, "call": norm(st)[:60], "flag": flag, "guard": norm(rest[guard_at].test) if guard_at is not None else None, "uses before guard": [e[1] for e in early]})
+                if guard_at is None and any(isinstance(n, ast.Name) and n.id in vals and isinstance(n.ctx, ast.Load) for x in rest for n in ast.walk(x)):
+                    tests = [norm(x.test) for x in rest if isinstance(x, ast.If)][:2]
+                    r.violate(PROP, f"{f.qualname}:subtree-used-without-flag-test:{flag}", f"the sub-tree / proposal returned by _build_tree is used although no test of the returned termination flag `{flag}` leaves first (tests that follow: {tests}): _build_tree also reports termination together with a complete sub-tree (U-turn inside it), which is then merged and sampled from - moves into such a sub-tree have no reverse move, the transition is not invariant", node=st, file=f.file)
+                elif early:
+                    r.violate(PROP, f"{f.qualname}:subtree-used-before-flag-test:{early[0][1]}", f"`{early[0][1]}` of the new sub-tree is used before the termination flag `{flag}` is tested", node=early[0][0], file=f.file)
+    return r
+
+
 def rule_r3_r10(rep, program: Program):
     r = rep.rule("R3", "merge preserves structure; merge arguments and the continuation edge follow the integration direction", floor=9)
     k = program.cls("DynamicIntegrationTransition")
@@ -857,3 +906,4 @@ def run(rep, program: Program, tier: str) -> None:
     rep.isolate(rule_r7, rep, program)
     rep.isolate(rule_r9, rep, program)
     rep.isolate(rule_r11, rep, program)
+    rep.isolate(rule_r12, rep, program)
